@@ -455,3 +455,92 @@ def indirect_calls(P, fn, pseudo):
             if pseudo in cg.pt.vals(ev.e["fn"], fn):
                 out.append(ev)
     return out
+
+
+# ----------------------------------------------------------------------------- copy propagation of locals
+
+class Expander:
+    """Rewrites an expression at a program point so that single-definition locals are replaced by their defining
+    expressions (bookkeeping of names, not constraint solving).  Result is the canonical string."""
+
+    def __init__(self, fn, stable=True):
+        """stable=True: never expand a local whose defining lvalue is stored to somewhere in the function (the alias
+        would be stale); stable=False expands to the value *at definition time* (caller checks the ordering)."""
+        self.fn = fn
+        self.stable = stable
+        self.IN, self.tr, self.defs = reaching_defs(fn)
+        self.params = {p["name"] for p in fn.params}
+        # lvalues stored to somewhere in the function: a local defined from one of them is not a stable alias
+        self.stored = set()
+        for x in fn.events():
+            if x.kind in ("assign", "incdec") and x.lhs is not None and strip(x.lhs)["k"] != "var":
+                self.stored.add(S(x.lhs))
+
+    def at(self, ev, e, depth=0):
+        st = self.fn.state_before(self.IN, ev, self.tr)
+        return self._x(e, st, depth)
+
+    def _x(self, e, st, depth):
+        e = strip(e)
+        if e is None:
+            return "<none>"
+        k = e["k"]
+        if "cv" in e:
+            return str(e["cv"])
+        if k == "var" and e.get("vk") == "local" and depth < 8 and st is not None:
+            ds = [d for (v, d) in st if v == e["name"]]
+            if len(ds) == 1 and ds[0] != "param":
+                dev = self.defs[ds[0]]
+                if dev.kind in ("decl", "assign") and dev.rhs is not None and (dev.kind == "decl" or dev.e.get("op") == "="):
+                    r = strip(dev.rhs)
+                    if r is not None and r["k"] in ("var", "member", "un", "index", "call", "cond", "null", "bin", "int") \
+                            and (not self.stable or S(r) not in self.stored):
+                        st2 = self.fn.state_before(self.IN, dev, self.tr)
+                        return self._x(r, st2, depth + 1)
+            return e["name"]
+        if k == "member":
+            return self._x(e["base"], st, depth) + ("->" if e["arrow"] else ".") + e["field"]
+        if k == "un":
+            inner = self._x(e["e"], st, depth)
+            if e["op"] == "*":
+                if inner.startswith("&"):
+                    return inner[1:]
+                return "*" + inner
+            if e["op"] == "&" and inner.startswith("*"):
+                return inner[1:]
+            if e["op"] in ("++", "--") and e.get("postfix"):
+                return inner + e["op"]
+            return e["op"] + inner
+        if k == "index":
+            return self._x(e["base"], st, depth) + "[" + self._x(e["idx"], st, depth) + "]"
+        if k == "call":
+            fnn = e["callee"] if e.get("callee") else "(" + self._x(e["fn"], st, depth) + ")"
+            if fnn == "__errno_location":
+                return "&errno"
+            return fnn + "(" + ", ".join(self._x(a, st, depth) for a in e["args"]) + ")"
+        if k in ("bin", "assign"):
+            return "(" + self._x(e["l"], st, depth) + " " + e["op"] + " " + self._x(e["r"], st, depth) + ")"
+        if k == "cond":
+            return "(" + self._x(e["c"], st, depth) + " ? " + self._x(e["a"], st, depth) + " : " + self._x(e["b"], st, depth) + ")"
+        return S(e)
+
+
+def field_stores(fn, rec, field):
+    out = []
+    for ev in fn.events():
+        if ev.kind in ("assign", "incdec"):
+            l = strip(ev.lhs)
+            if l is not None and l["k"] == "member" and l["field"] == field and (rec is None or l["rec"] == rec):
+                out.append(ev)
+    return out
+
+
+def dtor_calls(fn, recs=None):
+    """Indirect calls through a field named 'dtor'."""
+    out = []
+    for ev in fn.calls():
+        if ev.callee is None:
+            fe = strip(ev.e["fn"])
+            if fe is not None and fe["k"] == "member" and fe["field"] == "dtor" and (recs is None or fe["rec"] in recs):
+                out.append(ev)
+    return out
